@@ -104,6 +104,7 @@ struct InvRecord {
   DepsLogFold deps_before, deps_after;
   std::map<std::string, std::pair<uint64_t, int64_t>> fs_before;   // path -> (content hash, mtime)
   int tokens_before = -1, tokens_after = -1;
+  std::set<std::string> dd_at_start;   // dyndep files that existed when ninja started
   bool log_torn_tail_before = false;   // .ninja_log did not end in a newline when ninja started (a crash tore it)
   // state at the instant ninja exited (before orphaned children continue)
   std::map<std::string, std::pair<std::string, int64_t>> outs_at_exit;   // only paths that exist
@@ -167,6 +168,7 @@ struct World : SpawnHandler {
   void CheckTermination(const InvRecord& r);
   void CheckRsp(const InvRecord& r);
   void CheckInterrupt(const InvRecord& r);
+  void CheckCycles(const InvRecord& r, const std::set<std::string>& dd_at_start);
 };
 
 struct RunResult {
